@@ -49,7 +49,7 @@ def run(ctx):
         if not ctx["dok"]:
             broken.append(("driver-build", "semadriver", "model driver did not build"))
         return {"stats": stats, "disagreements": disagreements, "compared": compared, "broken": broken}
-    drv = os.path.join(R.LEAN, ".lake", "build", "bin", "semadriver")
+    drv = R.driver_exe("C12")
     # which variant of the model does the source correspond to (T2)?
     rc, out, err, _ = _sh([drv, "C12", "variant"])
     variant = out.strip()
@@ -95,7 +95,7 @@ def search(ctx):
     """Called when a tie or an obligation broke but the standard run found no oracle failure: force a
     larger sample of schedules (other seeds) and run a longer stress, looking for a real violation."""
     R = ctx["runner"]
-    drv = os.path.join(R.LEAN, ".lake", "build", "bin", "semadriver")
+    drv = R.driver_exe("C12")
     rc, out, err, _ = _sh([drv, "C12", "variant"])
     variant = out.strip() if out.strip() in ("pinned", "repaired") else "repaired"
     for k in range(1, 4):
